@@ -290,14 +290,14 @@ func c08HistoryAlphabet() []Cmd {
 	return []Cmd{
 		{Command: "tar -czf b.tgz /home", Description: "backup zqxsaved", Keywords: []string{"backup"}},
 		{Command: "tar -czf b.tgz /home", Description: "backup again zqxsaved (replaces)", Keywords: []string{"backup", "again"}, Niche: "files"},
-		{Command: "docker ps --format 'table {{.Names}}\\t{{.Status}}'", Description: "containers: names # status zqxsaved", Keywords: []string{"docker"}, Platform: []string{"linux", "macos"}},
+		{Command: "docker ps --format 'table {{.Names}}\\t{{.Status}}'", Description: "containers: names # status zqxsaved", Keywords: []string{"docker"}, Platform: []string{"linux", "macos"}, Niche: "files"},
 		{Command: "first --keep", Description: "replaces a starting entry zqxsaved", Pipeline: true},
 		{Command: "- weird: 'yaml' #", Description: "null", Keywords: []string{"true", "123", "~"}, Niche: "!!str"},
-		{Command: "printf 'a\\nb'", Description: "two\nlines zqxsaved", Keywords: []string{"multi\nline"}},
+		{Command: "printf 'a\\nb'", Description: "two\nlines zqxsaved", Keywords: []string{"multi\nline"}, Niche: "old"},
 		// near-twins: different command strings that differ only in blanks or letter case
-		{Command: "grep -F 'a  b' notes.txt", Description: "two blanks zqxsaved", Keywords: []string{"grep"}},
+		{Command: "grep -F 'a  b' notes.txt", Description: "two blanks zqxsaved", Keywords: []string{"grep"}, Niche: "files"},
 		{Command: "grep -F 'a b' notes.txt", Description: "one blank zqxsaved", Keywords: []string{"grep"}},
-		{Command: "first  --keep", Description: "two blanks, not the starting entry zqxsaved"},
+		{Command: "first  --keep", Description: "two blanks, not the starting entry zqxsaved", Niche: "Files"},
 		{Command: "FIRST --KEEP ", Description: "upper case and a trailing blank zqxsaved"},
 	}
 }
@@ -559,7 +559,7 @@ cli:
 func init() {
 	lib.Register(&lib.Check{
 		ID: "C08", Level: "model_checking",
-		Rule:      "(in-process, the real saveToPersonalDatabase through an overlay accessor) every string made of 1 atom or of 2 atoms (all 3,844 ordered pairs; thorough: + all 4,096 triples over 16 hostile atoms) of a 62-atom YAML-hostile alphabet (leading '-', ': ', '#', quotes, '{{...}}', null/true/numbers/dates, multi-line shapes, tabs, leading/trailing space, NUL, BEL, ESC, invalid UTF-8, NEL, LS, BOM, block-scalar and tag indicators, anchors, flow indicators, merge key ...) in each of the 5 string fields x 3 starting notebooks (missing, empty file, 2 entries); + every save history of length <=3 over a 10-entry alphabet (incl. replace-by-command, replacing a starting entry, multi-line and YAML-looking entries, and near-twin commands that differ only in blanks or letter case) x 3 starts. After every save: if it reported success the re-loaded notebook equals the reference list field by field and in order, otherwise it equals the reference before the save; main + notebook load as main entries followed by notebook entries, also when the main file already lists the saved command string; a search for the saved entry's word returns it. (process) the real `wtf save` and `wtf save-pipeline` with every argv-safe atom as each argument/flag value after a first ordinary save, same oracle on the notebook file, plus `wtf <word>` printing the saved command. non-trivial = successful saves of non-plain strings",
+		Rule:      "(in-process, the real saveToPersonalDatabase through an overlay accessor) every string made of 1 atom or of 2 atoms (all 3,844 ordered pairs; thorough: + all 4,096 triples over 16 hostile atoms) of a 62-atom YAML-hostile alphabet (leading '-', ': ', '#', quotes, '{{...}}', null/true/numbers/dates, multi-line shapes, tabs, leading/trailing space, NUL, BEL, ESC, invalid UTF-8, NEL, LS, BOM, block-scalar and tag indicators, anchors, flow indicators, merge key ...) in each of the 5 string fields x 3 starting notebooks (missing, empty file, 2 entries); + every save history of length <=3 over a 10-entry alphabet (incl. replace-by-command, replacing a starting entry, multi-line and YAML-looking entries, near-twin commands that differ only in blanks or letter case, and four entries of one category saved around entries of none) x 3 starts. After every save: if it reported success the re-loaded notebook equals the reference list field by field and in order, otherwise it equals the reference before the save; main + notebook load as main entries followed by notebook entries, also when the main file already lists the saved command string; a search for the saved entry's word returns it. (process) the real `wtf save` and `wtf save-pipeline` with every argv-safe atom as each argument/flag value after a first ordinary save, same oracle on the notebook file, plus `wtf <word>` printing the saved command. non-trivial = successful saves of non-plain strings",
 		Assume:    []string{"yaml.v3's decoder through LoadDatabase defines 're-loading the notebook'", "list-flag values that are empty or contain ',', '\"' or a line break are CSV syntax and are not used as single keywords / platforms", "the write path is reached through an overlay accessor (" + accMode + ")"},
 		QuickSecs: 200, ThorSecs: 1500,
 		Run: c08Run,
